@@ -291,3 +291,118 @@ Section Specs.
     repeat split; congruence.
   Qed.
 End Specs.
+
+(* ---------- the invariant ---------- *)
+Section Invariant.
+  Context {R : Type} (o : ring_ops R) (L : ring_laws o) (u : unit_ops R) (UL : unit_laws o u).
+  Local Notation dmat := (dmat R).
+  Local Notation dwf := (@dwf R).
+  Local Notation state := (state R).
+
+  (* ghost data: current ranks, accumulated forward / backward maps (p <= M), homotopies (p < M) *)
+  Record ghost := mkG { gn : nat -> nat; gF : nat -> dmat; gB : nat -> dmat; gH : nat -> dmat }.
+
+  (* the original complex: M differentials D_p : C_p -> C_{p+1} (p < M), ranks N_p (p <= M),
+     tracked vectors V0_p *)
+  Context (M : nat) (N : nat -> nat) (D : nat -> dmat) (V0 : nat -> list (list R)).
+  Context (HD : forall p, p < M -> dwf (D p) /\ dr (D p) = N (S p) /\ dc (D p) = N p).
+
+  Definition Hlo (g : ghost) (p : nat) : dmat :=
+    match p with O => dzero o (N 0) (N 0) | S q => dmul o (D q) (gH g q) end.
+  Definition Hhi (g : ghost) (p : nat) : dmat :=
+    if p <? M then dmul o (gH g p) (D p) else dzero o (N p) (N p).
+
+  Record Inv (st : state) (g : ghost) : Prop := mkInv {
+    inv_mats : forall p, p < M -> exists d, mats st p = Some d /\ dwf d /\ dr d = gn g (S p) /\ dc d = gn g p;
+    inv_none : forall p, M <= p -> mats st p = None;
+    inv_cpx : forall p d0 d1, mats st p = Some d0 -> mats st (S p) = Some d1 ->
+              dmul o d1 d0 = dzero o (dr d1) (dc d0);
+    inv_F : forall p, p <= M -> dwf (gF g p) /\ dr (gF g p) = gn g p /\ dc (gF g p) = N p;
+    inv_B : forall p, p <= M -> dwf (gB g p) /\ dr (gB g p) = N p /\ dc (gB g p) = gn g p;
+    inv_FB : forall p, p <= M -> dmul o (gF g p) (gB g p) = did o (gn g p);
+    inv_Fc : forall p d, mats st p = Some d -> dmul o (gF g (S p)) (D p) = dmul o d (gF g p);
+    inv_Bc : forall p d, mats st p = Some d -> dmul o (D p) (gB g p) = dmul o (gB g (S p)) d;
+    inv_H : forall p, p < M -> dwf (gH g p) /\ dr (gH g p) = N p /\ dc (gH g p) = N (S p);
+    inv_hom : forall p, p <= M ->
+              dadd o (dmul o (gB g p) (gF g p)) (dadd o (Hlo g p) (Hhi g p)) = did o (N p);
+    inv_trs : forall p t, trs st p = Some t -> p < M /\ t = mkT (N p) (gn g p) (gF g p) (gB g p);
+    inv_vcs : forall p, p <= M ->
+              Forall2 (fun v v0 => length v = gn g p /\ vmat o v = dmul o (gF g p) (vmat o v0)) (vcs st p) (V0 p)
+  }.
+
+  Lemma Forall2_compose {A B C} (P : A -> C -> Prop) (Q : A -> B -> Prop) (P' : B -> C -> Prop) l l1 l0 :
+    (forall x y z, Q x y -> P x z -> P' y z) -> Forall2 Q l l1 -> Forall2 P l l0 -> Forall2 P' l1 l0.
+  Proof.
+    intros H HQ. revert l0. induction HQ as [|x y l l1 Hxy HQ IH]; intros l0 HP; inversion HP; subst.
+    - constructor.
+    - constructor; [eapply H; eassumption|]. now apply IH.
+  Qed.
+
+  Section StepInv.
+    Context (st : state) (g : ghost) (I : Inv st g).
+    Context (p : nat) (a1 : dmat) (Ha : mats st p = Some a1).
+    Context (vp vq : list nat) (r : nat) (t : ttype) (sc : schur R).
+    Local Notation m := (dr a1).
+    Local Notation n := (dc a1).
+    Context (Hvp : is_perm m vp) (Hvq : is_perm n vq)
+            (Htri : tri_ok o t (dblock o (permute o a1 vp vq) 0 0 r r) r)
+            (Hsc : schur_of o u t (permute o a1 vp vq) r = Some sc).
+    Context (ms : nat -> option dmat) (Ems : update_mats o (mats st) p vp vq r (sc_s sc) = Some ms).
+    Context (ts : nat -> option (trans R))
+            (Hts : (trs st p = None /\ trs st (S p) = None /\ ts = trs st) \/
+                   (exists t_s t_t, schur_t_src o n r sc = Some t_s /\ schur_t_tgt o m r sc = Some t_t /\
+                                    update_trans o (trs st) p vp vq t_s t_t = Some ts)).
+    Context (vs : nat -> list (list R)) (Evs : update_vecs o (vcs st) p vp vq r sc = Some vs).
+
+    Local Notation f1 := (step_f1 o n r vq).
+    Local Notation b1 := (step_b1 o n r vq sc).
+    Local Notation f2 := (step_f2 o m r vp sc).
+    Local Notation b2 := (step_b2 o m r vp).
+    Local Notation h := (step_h o m n r vp vq sc).
+    Local Notation s := (sc_s sc).
+
+    Definition g' : ghost :=
+      mkG (fupd (fupd (gn g) p (n - r)) (S p) (m - r))
+          (fupd (fupd (gF g) p (dmul o f1 (gF g p))) (S p) (dmul o f2 (gF g (S p))))
+          (fupd (fupd (gB g) p (dmul o (gB g p) b1)) (S p) (dmul o (gB g (S p)) b2))
+          (fupd (gH g) p (dadd o (gH g p) (dmul o (gB g p) (dmul o h (gF g (S p)))))).
+
+    Lemma pM : p < M.
+    Proof.
+      destruct (Nat.lt_ge_cases p M) as [H|H]; [exact H|].
+      rewrite (inv_none st g I p H) in Ha. discriminate.
+    Qed.
+
+    Lemma a1_facts : dwf a1 /\ m = gn g (S p) /\ n = gn g p.
+    Proof.
+      destruct (inv_mats st g I p pM) as (d & Ed & Wd & Hr & Hc). rewrite Ha in Ed. injection Ed as <-. auto.
+    Qed.
+
+    Lemma SD : 
+      dr f1 = n - r /\ dc f1 = n /\ dr b1 = n /\ dc b1 = n - r /\
+      dr f2 = m - r /\ dc f2 = m /\ dr b2 = m /\ dc b2 = m - r /\
+      dr h = n /\ dc h = m /\ dr s = m - r /\ dc s = n - r /\ dwf s /\ r <= m /\ r <= n.
+    Proof.
+      destruct a1_facts as (W1 & _ & _).
+      exact (step_dims o L u UL a1 m n r vp vq t sc W1 eq_refl eq_refl Hvp Hvq Htri Hsc).
+    Qed.
+
+    (* access to the new ghost *)
+    Lemma gn'_p : gn g' p = n - r. Proof. cbn [g' gn]. rewrite fupd_neq by lia. apply fupd_eq. Qed.
+    Lemma gn'_Sp : gn g' (S p) = m - r. Proof. cbn [g' gn]. apply fupd_eq. Qed.
+    Lemma gn'_other q : q <> p -> q <> S p -> gn g' q = gn g q.
+    Proof. intros. cbn [g' gn]. now rewrite !fupd_neq. Qed.
+    Lemma gF'_p : gF g' p = dmul o f1 (gF g p). Proof. cbn [g' gF]. rewrite fupd_neq by lia. apply fupd_eq. Qed.
+    Lemma gF'_Sp : gF g' (S p) = dmul o f2 (gF g (S p)). Proof. cbn [g' gF]. apply fupd_eq. Qed.
+    Lemma gF'_other q : q <> p -> q <> S p -> gF g' q = gF g q.
+    Proof. intros. cbn [g' gF]. now rewrite !fupd_neq. Qed.
+    Lemma gB'_p : gB g' p = dmul o (gB g p) b1. Proof. cbn [g' gB]. rewrite fupd_neq by lia. apply fupd_eq. Qed.
+    Lemma gB'_Sp : gB g' (S p) = dmul o (gB g (S p)) b2. Proof. cbn [g' gB]. apply fupd_eq. Qed.
+    Lemma gB'_other q : q <> p -> q <> S p -> gB g' q = gB g q.
+    Proof. intros. cbn [g' gB]. now rewrite !fupd_neq. Qed.
+    Lemma gH'_p : gH g' p = dadd o (gH g p) (dmul o (gB g p) (dmul o h (gF g (S p)))).
+    Proof. cbn [g' gH]. apply fupd_eq. Qed.
+    Lemma gH'_other q : q <> p -> gH g' q = gH g q.
+    Proof. intros. cbn [g' gH]. now rewrite fupd_neq. Qed.
+  End StepInv.
+End Invariant.
